@@ -413,12 +413,23 @@ class Exec:
                 operator.imul(target, op["n"]); return "ok"
             if name == "set_flat":
                 target.set_flat([(k, v) for k, v in op["pairs"]]); return "ok"
+            if name == "reversed":
+                return ("els", list(reversed(target)))
+            if name == "imul_bad":
+                operator.imul(target, {"float": 2.5, "str": "a", "none": None}[op["x"]]); return "ok"
+            if name == "set_mixed":
+                return ("b", target.set(vals))
             if name == "sort":
                 kw = {}
                 if op.get("key") == "u":
                     kw["key"] = lambda e: e.u
                 elif op.get("key") == "ulen":
                     kw["key"] = lambda e: len(e.u)
+                elif op.get("key") == "len":
+                    kw["key"] = lambda e: len(e)              # only a member has a length (a ListSlot has none)
+                elif op.get("key") == "field":
+                    fname = op["field"]
+                    kw["key"] = lambda e: e[fname].u          # only a member can be subscripted
                 target.sort(reverse=bool(op["rev"]), **kw); return "ok"
             if name == "set":
                 return ("b", target.set(py(op["v"])))
@@ -535,6 +546,15 @@ class Exec:
                 self.root.set_default()
             except Exception as e:
                 out = {"exc": exc_name(e)}
+        elif route == "from_object":
+            import types
+            obj = types.SimpleNamespace(**{k: v for k, v in (value or {}).items() if isinstance(k, str) and k.isidentifier()}) \
+                if isinstance(value, dict) else value
+            try:
+                self.root = cls.from_object(obj)
+            except Exception as e:
+                out = {"exc": exc_name(e)}
+                self.root = cls()
         elif route == "from_flat":
             try:
                 self.root = cls.from_flat([(k, v) for k, v in self.case["init"]["pairs"]])
@@ -821,10 +841,15 @@ def gen_flat_pairs(rng, s):
 
 
 def gen_seq_op(rng, member, valid=True, seq=None):
-    name = rng.choice(SEQ_OPS + (["set_flat", "set_flat"] if seq is not None else []))
+    name = rng.choice(SEQ_OPS + ["reversed", "imul_bad"] + (["set_flat", "set_flat", "set_mixed"] if seq is not None else []))
     op = {"op": name}
     if name == "imul":
         op["n"] = rng.choice([-1, 0, 1, 2, 2, 3])
+    elif name == "imul_bad":
+        op["x"] = rng.choice(["float", "str", "none"])
+    elif name == "set_mixed":
+        # set(iterable) whose items are plain values AND ready-made Elements of the member schema
+        op["as"] = [gen_arg(rng, member, p_elem=0.5, p_pool=0.1, valid=valid) for _ in range(rng.choice([1, 2, 3]))]
     elif name == "set_flat":
         op["pairs"] = gen_flat_pairs(rng, seq)
     if name in ("append", "remove", "contains", "index", "count"):
@@ -847,7 +872,14 @@ def gen_seq_op(rng, member, valid=True, seq=None):
     elif name == "pop":
         op["i"] = None if rng.random() < 0.4 else gen_index(rng)
     elif name == "sort":
-        op["key"] = rng.choice([None, "u", "u", "ulen"])
+        mk = (member or {}).get("k")
+        if mk in ("list", "array"):
+            op["key"] = rng.choice([None, "len", "len", "u"])
+        elif mk == "dict" and member["subs"] and member["subs"][0]["k"] in ("integer", "string"):
+            op["key"] = rng.choice([None, "field", "field", "u"])
+            op["field"] = member["subs"][0]["name"]
+        else:
+            op["key"] = rng.choice([None, "u", "u", "ulen"])
         op["rev"] = rng.random() < 0.4
     elif name == "set":
         fake = {"k": "list", "subs": [member]} if member is not None else None
@@ -1097,10 +1129,10 @@ def mark_unmodelled(prop, cases):
 
 
 def has_flat(case):
-    if case["init"].get("route") in ("from_flat", "set_flat"):
+    if case["init"].get("route") in ("from_flat", "set_flat", "from_object"):
         return True
     for o in case["ops"]:
         for part in ("s", "m"):
-            if (o.get(part) or {}).get("op") == "set_flat":
+            if (o.get(part) or {}).get("op") in ("set_flat", "set_mixed"):
                 return True
     return False
